@@ -222,6 +222,16 @@ func c13Run(c *core.Ctx) {
 			}
 		}
 	}
+	// pairs of positions (level 5 only), shallow
+	for _, fam := range []string{"php7", "php5"} {
+		f := corpus.MustFam(fam)
+		for _, it := range f.Items(5) {
+			if it.ScanOK && countSub(it.Why, "pair") > 0 && c.Next() {
+				setBlock(&srcCase{})
+				c13Tree(c, []byte(it.Src), verStr(f.V), 2, nil)
+			}
+		}
+	}
 	// name-resolution-heavy and error-carrying programs
 	for _, s := range c13Extra {
 		for _, v := range []string{"7.4", "5.6"} {
